@@ -191,6 +191,8 @@ impl<'a> PostConversionLinter for UserDefinedFunctionLinter<'a> {
             Expression::BuiltInFunctionCall(_, args) | Expression::ArrayElement(_, args, _) => {
                 self.visit_expressions(args)
             }
+            // a field of a record, possibly of an array element: `a(i).field`
+            Expression::Property(left_side, _, _) => self.visit_property_base(left_side),
             _ => Ok(()),
         }
     }
